@@ -1,5 +1,7 @@
 From Coq Require Import String Sorting.Sorted.
-From VP Require Import Base.Tactics Raft.Model Raft.Arms Raft.Gen_Commands Raft.ProofsSM Raft.ProofsLog Raft.ProofsRecover Raft.ProofsAgree Raft.Props.
+From VP Require Import Base.Tactics Raft.Model Raft.Arms Raft.Gen_Commands Raft.ProofsSM Raft.ProofsLog Raft.ProofsRecover Raft.ProofsAgree
+     Raft.Sync Raft.Gen_Replication Raft.ProofsSync.
+From VP Require Import Raft.Props.
 Open Scope Z_scope.
 Check (C37_agree_partial :
   forall G ops1 ops2, ground_ok G ->
